@@ -1153,7 +1153,11 @@ class GenericPlainRegistry(Generic[QuantityT, UnitT], metaclass=RegistryMeta):
                     if len(name) == 1:
                         continue
                 if case_sensitive:
-                    if name in self._units:
+                    # Prefixed units registered on the fly by get_name are not in
+                    # _units_casei: a prefix cannot be stacked on them.
+                    if name in self._units and (
+                        not prefix or name in self._units_casei.get(name.lower(), ())
+                    ):
                         yield (
                             self._prefixes[prefix].name,
                             self._units[name].name,
